@@ -94,6 +94,7 @@ include hs
 
 @[pres] theorem battrParse_ids (attrs : Str) : Pres IdsNodup (battrParse rec env attrs) := by
   have hr := fun t e => (replaceInline_frame rec env hs t e).idsNodup
+  have hm := fun t sl => (macrosRender_frame rec env hs t sl).idsNodup
   ids_start; unfold battrParse; wp_go
 
 /-- The definition and option filters of the line rules: every write to a definition table or option is
